@@ -8,6 +8,7 @@ import (
 	"errors"
 	"fmt"
 	"io"
+	"math"
 
 	"github.com/sassoftware/relic/v8/lib/binpatch"
 	"github.com/sassoftware/relic/v8/lib/certloader"
@@ -28,9 +29,21 @@ func Sign(ctx context.Context, rsfBytes []byte, r io.Reader, cert *certloader.Ce
 	if err := binary.Read(bytes.NewReader(rsfBytes), binary.BigEndian, &rsf); err != nil {
 		return nil, nil, fmt.Errorf("udif header: %w", err)
 	}
+	if rsf.Signature != udifSignature {
+		return nil, nil, errors.New("dmg file magic not found")
+	}
 	nr := &counter{r: r}
 	bundleSize := rsf.XMLOffset + rsf.XMLLength
 	oldOffset, oldLength := rsf.SignatureOffset, rsf.SignatureLength
+	// The signature goes to the end of the XML plist and replaces everything
+	// from there to the end of the file, so nothing else may live there.
+	if rsf.XMLOffset < 0 || rsf.XMLLength <= 0 || bundleSize < 0 {
+		return nil, nil, errors.New("dmg has no XML plist to place the signature after")
+	}
+	if forkEnd(rsf.DataForkOffset, rsf.DataForkLength) > bundleSize ||
+		forkEnd(rsf.ResourceForkOffset, rsf.ResourceForkLength) > bundleSize {
+		return nil, nil, errors.New("dmg data lies behind the XML plist and would be overwritten by the signature")
+	}
 	rsf.SignatureOffset = bundleSize
 	blobParams := &csblob.SignatureParams{
 		HashFunc:        params.HashFunc,
@@ -56,6 +69,9 @@ func Sign(ctx context.Context, rsfBytes []byte, r io.Reader, cert *certloader.Ce
 		return nil, nil, err
 	}
 	oldSize := nr.n
+	if bundleSize > oldSize-udifHeaderSize {
+		return nil, nil, errors.New("dmg XML plist extends into the UDIF header")
+	}
 	// generate patch
 	rsf.SignatureLength = int64(len(blob))
 	var b bytes.Buffer
@@ -68,6 +84,18 @@ func Sign(ctx context.Context, rsfBytes []byte, r io.Reader, cert *certloader.Ce
 	params.SigningIdentity = blobParams.SigningIdentity
 	params.TeamIdentifier = blobParams.TeamIdentifier
 	return patch, tsig, nil
+}
+
+// forkEnd returns the file offset at which a fork ends: 0 if the fork is
+// absent, the largest offset if its bounds are not representable.
+func forkEnd(offset, length int64) int64 {
+	if length <= 0 {
+		return 0
+	}
+	if offset < 0 || offset+length < offset {
+		return math.MaxInt64
+	}
+	return offset + length
 }
 
 type counter struct {
